@@ -30,6 +30,7 @@ import (
 	"go.minekube.com/gate/pkg/gate/config"
 	"go.minekube.com/gate/pkg/internal/otelutil"
 	"go.minekube.com/gate/pkg/internal/reload"
+	"go.minekube.com/gate/pkg/internal/verifhook"
 	"go.minekube.com/gate/pkg/runtime/process"
 	connectcfg "go.minekube.com/gate/pkg/util/connectutil/config"
 	errorsutil "go.minekube.com/gate/pkg/util/errs"
@@ -160,6 +161,7 @@ type LiveConfigResult struct {
 // live-safe changes: routes in an already-enabled Java Lite configuration. All other
 // settings are rejected before any runtime component is changed.
 func (g *Gate) ApplyLiveConfig(candidate *config.Config) LiveConfigResult {
+	verifhook.Point("lc.enter")
 	g.reloadMu.Lock()
 	defer g.reloadMu.Unlock()
 	return g.applyLiveConfigLocked(candidate)
@@ -168,22 +170,27 @@ func (g *Gate) ApplyLiveConfig(candidate *config.Config) LiveConfigResult {
 // ApplyLiveConfigIfVersion applies a candidate only if expectedVersion still
 // identifies the current configuration snapshot.
 func (g *Gate) ApplyLiveConfigIfVersion(candidate *config.Config, expectedVersion string) LiveConfigResult {
+	verifhook.Point("lc.enter")
 	g.reloadMu.Lock()
 	defer g.reloadMu.Unlock()
 
 	version, err := configVersion(g.currentConfig.Load())
 	if err != nil {
+		verifhook.Event("lc.commit", "code", "prepare_failed", "version", "")
 		return LiveConfigResult{Code: "prepare_failed"}
 	}
 	if version != expectedVersion {
+		verifhook.Event("lc.commit", "code", "precondition_failed", "version", version)
 		return LiveConfigResult{Code: "precondition_failed", Version: version}
 	}
+	verifhook.Point("lc.checked")
 	return g.applyLiveConfigLocked(candidate)
 }
 
 // ConfigSnapshot returns an owned copy of the current effective configuration
 // and its opaque version.
 func (g *Gate) ConfigSnapshot() (*config.Config, string, error) {
+	verifhook.Point("lc.enter")
 	g.reloadMu.Lock()
 	defer g.reloadMu.Unlock()
 
@@ -200,29 +207,36 @@ func (g *Gate) ConfigSnapshot() (*config.Config, string, error) {
 	if err != nil {
 		return nil, "", err
 	}
+	verifhook.Event("lc.snapshot", "version", version)
 	return &snapshot, version, nil
 }
 
 func (g *Gate) applyLiveConfigLocked(candidate *config.Config) LiveConfigResult {
 	current := g.currentConfig.Load()
 	if candidate == nil {
+		verifhook.Event("lc.commit", "code", "invalid", "version", "")
 		return LiveConfigResult{Code: "invalid"}
 	}
 	if configsEqual(current, candidate) {
 		version, err := configVersion(current)
 		if err != nil {
+			verifhook.Event("lc.commit", "code", "prepare_failed", "version", "")
 			return LiveConfigResult{Code: "prepare_failed"}
 		}
+		verifhook.Event("lc.commit", "code", "unchanged", "version", version)
 		return LiveConfigResult{Unchanged: true, Code: "unchanged", Version: version}
 	}
 	if _, errs := candidate.Validate(); len(errs) != 0 {
+		verifhook.Event("lc.commit", "code", "invalid", "version", "")
 		return LiveConfigResult{Code: "invalid"}
 	}
 	if !onlyLiveLiteRoutesChanged(current, candidate) {
+		verifhook.Event("lc.commit", "code", "unsupported", "version", "")
 		return LiveConfigResult{Code: "unsupported"}
 	}
 	routes, err := cloneLiveLiteRoutes(candidate.Config.Lite.Routes)
 	if err != nil {
+		verifhook.Event("lc.commit", "code", "prepare_failed", "version", "")
 		return LiveConfigResult{Code: "prepare_failed"}
 	}
 	published := *current
@@ -230,13 +244,16 @@ func (g *Gate) applyLiveConfigLocked(candidate *config.Config) LiveConfigResult 
 	published.Config.Lite = current.Config.Lite
 	published.Config.Lite.Routes = routes
 	if err := g.javaProxy.ApplyLiveConfig(&published.Config); err != nil {
+		verifhook.Event("lc.commit", "code", "prepare_failed", "version", "")
 		return LiveConfigResult{Code: "prepare_failed"}
 	}
 	g.currentConfig.Store(&published)
 	version, err := configVersion(&published)
 	if err != nil {
+		verifhook.Event("lc.commit", "code", "applied", "version", "")
 		return LiveConfigResult{Applied: true, CacheInvalidated: true, Code: "applied"}
 	}
+	verifhook.Event("lc.commit", "code", "applied", "version", version)
 	return LiveConfigResult{Applied: true, CacheInvalidated: true, Code: "applied", Version: version}
 }
 
